@@ -48,14 +48,16 @@ DerFactor(M, R, a, b, cs) ==
    LET sv == ShiftVec(M, R, a, b)
    IN CRot(CInt(FoldLeft(LAMBDA acc, c : acc * sv[c], 1, cs)), 3 * Len(cs))
 (* D^n * (d^n X)(R) for the component sequence cs *)
-DerTable(M, X, cs) ==
+DerTable(M, X0, cs) ==
+   With(X0, LAMBDA X :
    [R \in DOMAIN X |-> [a \in Orb(M) |-> [b \in Orb(M) |->
-        IF X[R][a][b] = CZero THEN CZero ELSE CMul(DerFactor(M, R, a, b, cs), X[R][a][b])]]]
+        IF X[R][a][b] = CZero THEN CZero ELSE CMul(DerFactor(M, R, a, b, cs), X[R][a][b])]]])
 (* Rvectors.apply_expdK: X(R) exp(2 pi i dK.R); the phase is taken over the unreduced iRvec.
    OnReducedR = TRUE models the plausible mistake of applying it after the placement modulo NKFFT *)
-ApplyExpdK(M, X, dk12, fft, OnReducedR) ==
+ApplyExpdK(M, X0, dk12, fft, OnReducedR) ==
+   With(X0, LAMBDA X :
    [R \in DOMAIN X |-> [a \in Orb(M) |-> [b \in Orb(M) |->
-        CRot(X[R][a][b], Dot3(dk12, IF OnReducedR THEN Mod3(R, fft) ELSE R))]]]
+        CRot(X[R][a][b], Dot3(dk12, IF OnReducedR THEN Mod3(R, fft) ELSE R))]]])
 
 (* ---------------- explicit sum / k-list path (FFT_R_to_k with k_list: exponent_k_list, 'slow_path') *)
 RtoKDirect(M, X, k12) ==
@@ -82,16 +84,17 @@ KpointsAll(fft, dk12) ==
    IN [j \in 1..NK(fft) |-> LET m == KOfIndex(fft, j)
                             IN <<(s[1] * m[1] + dk12[1]) % 12, (s[2] * m[2] + dk12[2]) % 12, (s[3] * m[3] + dk12[3]) % 12>>]
 (* rows of FFT_R_to_k.__call__(X, hermitian=FALSE) *)
-FFTRows(M, X, fft) ==
-   LET G == [a \in Orb(M) |-> [b \in Orb(M) |-> Place(X, fft, a, b)]]
-   IN [j \in 1..NK(fft) |-> [a \in Orb(M) |-> [b \in Orb(M) |-> Transform(G[a][b], fft, KOfIndex(fft, j))]]]
+FFTRows(M, X0, fft) ==
+   With(X0, LAMBDA X :
+     With([a \in Orb(M) |-> [b \in Orb(M) |-> Place(X, fft, a, b)]], LAMBDA G :
+        [j \in 1..NK(fft) |-> [a \in Orb(M) |-> [b \in Orb(M) |-> Transform(G[a][b], fft, KOfIndex(fft, j))]]]))
 (* rows of Rvectors.R_to_k(apply_expdK(Ham_R), der=Len(cs), hermitian=FALSE): Data_K_R.Xbar('Ham', der) before _rotate *)
 FFTPath(M, fft, dk12, cs, OnReducedR) ==
    FFTRows(M, DerTable(M, ApplyExpdK(M, HamTable(M), dk12, fft, OnReducedR), cs), fft)
 (* rows of the explicit sum at kpoints_all *)
 DirectRows(M, fft, dk12, cs) ==
-   LET X == DerTable(M, HamTable(M), cs)  K == KpointsAll(fft, dk12)
-   IN [j \in 1..NK(fft) |-> RtoKDirect(M, X, K[j])]
+   With(DerTable(M, HamTable(M), cs), LAMBDA X :
+     With(KpointsAll(fft, dk12), LAMBDA K : [j \in 1..NK(fft) |-> RtoKDirect(M, X, K[j])]))
 (* hermitian=TRUE:  0.5 (A + A^dagger); here twice that *)
 Dagger(A) == [a \in DOMAIN A |-> [b \in DOMAIN A |-> CConj(A[b][a])]]
 MatAdd(A, B) == [a \in DOMAIN A |-> [b \in DOMAIN A |-> CAdd(A[a][b], B[a][b])]]
